@@ -2,7 +2,7 @@
    Model/Imp.v / Model/ImpConv.v against the `outcome` primitives of the hand model (Model/Cast.v rd, shl_chk), the literals. *)
 From Bnum Require Import Base Prim.
 From Bnum.Model Require Import DigitPrims LoopPrims Core Imp ImpConv.
-From Bnum.Model Require Cast Convert.
+From Bnum.Model Require Cast Convert NumConv.
 From Bnum.Proofs Require Import ImpLemmas ImpLemmas2.
 
 (* how an `outcome` of the hand model is read in the res monad *)
@@ -168,3 +168,61 @@ Qed.
 
 Lemma xorb_negb_eqb a b : xorb a b = negb (Bool.eqb a b).
 Proof. destruct a, b; reflexivity. Qed.
+
+(* ---------- primitive -> bnum: the loops that cut a primitive VALUE into digits ---------- *)
+
+(* `int >> s` on the value of a pb-bit primitive with the amount in range: no overflow check fires, in either build mode *)
+Lemma pshr_ok pb x s : 0 <= s < pb -> pshr pb x s = Done (x / 2 ^ s).
+Proof.
+  intros H. unfold pshr. destruct (Z.leb_spec 0 s); [|lia]. destruct (Z.ltb_spec s pb); [|lia]. reflexivity.
+Qed.
+
+Lemma shr_chk_in_range dbg pb x s : s < pb -> Cast.shr_chk dbg pb x s = Ret (x / 2 ^ s).
+Proof. intros H. unfold Cast.shr_chk, u_shr. destruct (Z.ltb_spec s pb); [|lia]. reflexivity. Qed.
+
+(* `while i << BIT_SHIFT < pb { let d = (int >> (i << BIT_SHIFT)) as Digit; if d != fill { if i < N { out[i] = d } else { return None } } i += 1 }`
+   followed by K: NumConv.while_ret with from_body *)
+Lemma from_loop_tie dbg w lg pb n int fill (K : list Z -> res (option (list Z))) : 0 <= lg -> w = 2 ^ lg ->
+  forall f fuel i out, pb <= Z.of_nat (i + f) * w -> (f <= fuel)%nat ->
+  bind (while_loop (R := (option (list Z))) fuel
+          (fun '(out, i) => ((ix_shl i (digit_BIT_SHIFT w)) <? pb))
+          (fun '(out, i) =>
+             t1' <- pshr pb int (ix_shl i (digit_BIT_SHIFT w)) ;;
+             let d := (ud w t1') in
+             if (negb (d =? fill)) then (
+               if (i <? Z.of_nat n) then (
+                 out <- arr_set out i d ;;
+                 let i := (i + 1) in
+                 Done (Continue (out, i))
+               ) else (
+                 Done (Return None)
+               )
+             ) else (
+               let i := (i + 1) in
+               Done (Continue (out, i))
+             ))
+          (out, Z.of_nat i))
+       (fun t2' => match t2' with Exited (out, i) => K out | Returned t3' => Done t3' end)
+  = bind (of_out (NumConv.while_ret f (fun i => Z.of_nat i * w <? pb) (NumConv.from_body dbg pb w n int fill) i out))
+         (fun r => match r with Some out => K out | None => Done None end).
+Proof.
+  intros Hlg Hw. assert (Hw0 : 0 < w) by (subst w; apply Z.pow_pos_nonneg; lia).
+  induction f as [|f IH]; intros fuel i out Hend Hf.
+  - cbn [NumConv.while_ret of_out bind]. rewrite while_loop_cond_false; [reflexivity|].
+    rewrite (ix_shl_BIT_SHIFT w lg) by assumption. rewrite Nat.add_0_r in Hend. apply Z.ltb_ge. exact Hend.
+  - cbn [NumConv.while_ret]. destruct (Z.ltb_spec (Z.of_nat i * w) pb) as [Hlt|Hge].
+    + destruct fuel as [|fuel]; [lia|]. rewrite while_loop_S. cbv beta iota.
+      rewrite (ix_shl_BIT_SHIFT w lg) by assumption.
+      destruct (Z.ltb_spec (Z.of_nat i * w) pb) as [_|?]; [|lia].
+      unfold NumConv.from_body at 1. rewrite pshr_ok by nia. rewrite shr_chk_in_range by exact Hlt.
+      cbn [bind obind]. cbv zeta. replace (Z.of_nat i + 1) with (Z.of_nat (S i)) by lia.
+      assert (Hnext : pb <= Z.of_nat (S i + f) * w) by (replace (S i + f)%nat with (i + S f)%nat by lia; exact Hend).
+      destruct (negb (ud w (int / 2 ^ (Z.of_nat i * w)) =? fill)).
+      * rewrite ltb_of_nat. destruct (i <? n)%nat.
+        -- rewrite <- wr_as_arr_set. destruct (Cast.wr out i _) as [out'|]; [|reflexivity]. cbn [omap obind bind].
+           apply IH; [exact Hnext|lia].
+        -- reflexivity.
+      * cbn [obind]. apply IH; [exact Hnext|lia].
+    + cbn [of_out bind]. rewrite while_loop_cond_false; [reflexivity|].
+      rewrite (ix_shl_BIT_SHIFT w lg) by assumption. apply Z.ltb_ge. exact Hge.
+Qed.
